@@ -3,6 +3,7 @@
    Update.v is in place). *)
 Require Import Base Extracted Criteria Search AuditGraph DepGraph Resolve Witness.
 Require Import SearchProofs AuditGraphProofs ResolveProofs ResolveTheorems.
+Require Import Update UpdateProofs PreserveProofs PruneProofs.
 Local Open Scope N_scope.
 
 (* reported fully audited  ==>  every required criterion has a chain of records
@@ -40,6 +41,29 @@ Proof.
   rewrite H in S. exact S.
 Qed.
 
+(* PRUNE: with exemption pruning on, `cargo vet prune` searches in PreferFreshImports mode (both facts
+   re-read from main.rs).  Every criterion that a kept exemption still lists afterwards was recorded by a
+   search for some in-graph version of that crate, for a criterion required of it, and that version has
+   NO certifying chain made of audits and grants alone (local, imported or importable; no exemption, no
+   unpublished link) — the exemption, and each criterion on it, stays only because it is needed. *)
+Theorem C12_prune_mode : forall a c,
+  um_search (mode_prune a false c) = PreferFreshImports /\ um_prune_exemptions (mode_prune a false c) = true.
+Proof. intros; split; reflexivity. Qed.
+
+Theorem C12_pruned_exemption_criteria_are_needed : forall t g reqs s name a c rm ag x' cr,
+  required_entries t g reqs s name PreferFreshImports = Some rm -> build t (store_for s name) = inl ag ->
+  In x' (update_exemptions t (mode_prune a false c) (Some rm) (ps_exemptions (store_for s name))) -> In cr (x_crit x') ->
+  exists k p, In (k, p) (enumerate (g_pkgs g)) /\ pk_name p = name /\ pk_third_party p = true /\
+    In cr (minimal_indices t (nth k reqs cs_empty)) /\
+    ~ fpath_avoiding needs_more_than_audits t (store_for s name) cr None (Some (pk_version p)).
+Proof.
+  intros t g reqs s name a c rm ag x' cr Hre Hb Hx Hc.
+  destruct (pruned_exemption_lists_only_recorded t (mode_prune a false c) rm (ps_exemptions (store_for s name)) x' cr eq_refl) as [i Hi]; [|exact Hx|exact Hc|].
+  - intros i s0 c0 Hg Hc0.
+    exact (required_entries_exemptions t g reqs s name PreferFreshImports rm ltac:(discriminate) Hre _ _ _ Hg Hc0).
+  - eapply recorded_exemption_is_needed; eauto.
+Qed.
+
 Example C12_nonvacuous_full : fully_vetted w_graph w_store 0.
 Proof. vm_compute. repeat eexists. left. reflexivity. Qed.
 Example C12_nonvacuous_exempted : ~ fully_vetted w_graph w_store_exempted 0.
@@ -50,3 +74,4 @@ Qed.
 Print Assumptions C12_fully_only_if.
 Print Assumptions C12_fully_if.
 Print Assumptions C12_search_minimax.
+Print Assumptions C12_pruned_exemption_criteria_are_needed.
